@@ -982,6 +982,7 @@ pub fn handle(st: &mut State, line: &str) -> String {
             "TLSPLAIN" => crate::net::tls_plain(st, &mut t),
             "TLSROT" => crate::net::tls_rotate(st, &mut t),
             "NET" => crate::net::scenario(st, &mut t),
+            "NETSLOW" => crate::net::slow_reader(st, &mut t),
             "RECONN" => crate::net::reconn(st, &mut t),
             "TLSDOMAIN" => {
                 // the name connect() would hand to the TLS library for this address (hook verif_tls_domain)
